@@ -474,11 +474,12 @@ Proof.
   set (s4 := emit (SockNew id) (set_regw false (set_sock (Some id) (set_nsock id (set_outq [] s2))))).
   assert (H5 : P (run_site nested SiOpen false (SockOpen id) s4)).
   { apply run_site_P; [discriminate|].
-    destruct H3 as [[HJ HT] _]. split; [split; [|exact HT]|unfold WW; ssimpl; congruence].
+    destruct H3 as [[HJ HT] _]. split; [split; [|exact HT]|unfold WW, s4; ssimpl; congruence].
     rewrite KS_emit. unfold s4. rewrite KS_emit, (k16_inert _ _ (SockNew id)) by reflexivity.
     rewrite (KS_frame _ _ (set_outq [] s2) (set_regw false (set_sock (Some id) (set_nsock id (set_outq [] s2))))) by reflexivity.
     ssimpl. rewrite Hs2 in HJ.
-    eapply J_frame; [|apply J_open_ev; [eapply J_frame; [|exact HJ]; reflexivity|]]; ssimpl; [reflexivity|exact Hr2]. }
+    apply J_frame with (s := s2); [ssimpl; symmetry; exact Hr2|].
+    apply J_open_ev; [|exact Hr2]. apply J_frame with (s := set_outq [] s2); [reflexivity|exact HJ]. }
   pose proof (packet_queue_P KConnect _ H5) as H6.
   destruct (packet_queue c nested KConnect (run_site nested SiOpen false (SockOpen id) s4)) as [s6 rc].
   exact H6.
@@ -604,3 +605,87 @@ Proof.
 Qed.
 
 End C16.
+
+(* ---- nesting depth ---- *)
+Lemma nested_at_P c (Hs : c_sockcb c = true) k0 : forall d sc s, P c k0 s -> P c k0 (nested_at c d sc s).
+Proof.
+  induction d as [|d IH]; intros sc s HP; cbn [nested_at].
+  - apply P_emit; [reflexivity|exact HP].
+  - apply exec_script_P; [exact Hs|exact IH| |exact HP].
+    intros sc' s' A B. apply nested_at_teardown; assumption.
+Qed.
+
+(* ---- one operation ---- *)
+Definition Top (c : cfg) (s : st) (k : k16) : Prop := J c (sock s) s k /\ WW c s.
+
+Lemma Top_ok c s k : Top c s k -> k16_okb k = true.
+Proof. intros [[] _]. unfold k16_okb. rewrite j_ok7, j_ok8, j_ok9. reflexivity. Qed.
+
+Lemma Top_step c (Hs : c_sockcb c = true) s k o : Top c s k -> excl_T o = true ->
+  Top c (fst (step c s o)) (fold_left (k16_ev (c_ext c)) (snd (step c s o)) k).
+Proof.
+  intros [HJ Hw] HT. unfold step.
+  set (s0 := set_incb false (set_sched (o_sched o) (set_scr (o_scr o)
+               (mkSt (cs s) (sock s) (regw s) (outq s) (ping s) (incb s) (proto s) (nsock s) (sched s) (scr s) [])))).
+  assert (HP0 : P c k s0).
+  { split; [split|].
+    - unfold KS, s0. cbn. apply J_frame with (s := s); [reflexivity|exact HJ].
+    - exact HT.
+    - exact Hw. }
+  pose proof (run_top_P c Hs k (nested_at c (nscripts (o_scr o))) (nested_at_P c Hs k _)
+                (fun sc s A B => nested_at_teardown c _ sc s A B) (o_call o) s0 HP0) as HP1.
+  set (s1 := run_top c (nested_at c (nscripts (o_scr o))) (o_call o) s0) in *.
+  cbn [fst snd]. rewrite fold_left_rev_KS.
+  destruct HP1 as [[HJ1 _] Hw1].
+  split.
+  - unfold obs. rewrite KS_emit. ssimpl.
+    apply J_frame with (s := s1); [reflexivity|].
+    revert HJ1. generalize (KS (k16_ev (c_ext c)) k s1). intros K HJ1.
+    destruct HJ1. unfold k16_ev, k6p_ev.
+    constructor; cbn [a4 a5 a6 k4_ev k5_ev]; try assumption.
+    + destruct (c_ext c) eqn:Ex; [|assumption]. cbn [k6_ev k6_ok].
+      rewrite j_ok9. cbn [andb]. unfold has_sock, want_write.
+      destruct (sock s1) eqn:Es; [|reflexivity]. destruct (outq s1) eqn:Eq; [reflexivity|].
+      assert (Er : regw s1 = true). { apply Hw1; [exact Ex|rewrite Es; discriminate|rewrite Eq; discriminate]. }
+      rewrite j_reg8, Er. reflexivity.
+    + destruct (c_ext c); [|assumption]. cbn [k6_ev k6_reg]. assumption.
+  - unfold WW in *. ssimpl. exact Hw1.
+Qed.
+
+Lemma Top_init c : Top c (init c) k16_init.
+Proof.
+  split; [|unfold WW; cbn; congruence].
+  constructor; cbn; rewrite ?andb_false_r; try reflexivity; try discriminate.
+Qed.
+
+Lemma c16_all c ops : c_sockcb c = true -> c16_ops_ok ops = true ->
+  k16_okb (run_checker (k16_ev (c_ext c)) (fun k => k) k16_init (optrace c ops)) = true.
+Proof.
+  intros Hs Hops. unfold optrace.
+  apply run_checker_inv with (hyp := fun _ o => excl_T o) (Top := Top c).
+  - apply Top_ok.
+  - intros s k o HT Hh. apply Top_step; assumption.
+  - apply Top_init.
+  - apply hyp_from_static. exact Hops.
+Qed.
+
+Theorem c16_open_close_proved : C16_open_close_partial.
+Proof.
+  intros c ops Hs Hops. pose proof (c16_all c ops Hs Hops) as H. rewrite k16_run in H.
+  unfold k16_okb in H. cbn [a4 a5 a6] in H. apply andb_true_iff in H as [H _]. apply andb_true_iff in H as [H _].
+  exact H.
+Qed.
+
+Theorem c16_reg_nested_proved : C16_reg_nested_partial.
+Proof.
+  intros c ops Hs Hops. pose proof (c16_all c ops Hs Hops) as H. rewrite k16_run in H.
+  unfold k16_okb in H. cbn [a4 a5 a6] in H. apply andb_true_iff in H as [H _]. apply andb_true_iff in H as [_ H].
+  exact H.
+Qed.
+
+Theorem c16_no_lost_wakeup_proved : C16_no_lost_wakeup_partial.
+Proof.
+  intros c ops Hs Hx Hops. pose proof (c16_all c ops Hs Hops) as H. rewrite k16_run in H.
+  unfold k16_okb in H. cbn [a4 a5 a6] in H. apply andb_true_iff in H as [_ H].
+  unfold c16_no_lost_wakeup_ok. rewrite Hx in *. exact H.
+Qed.
